@@ -71,7 +71,7 @@ def gen_cases(tier, seed):
         cases.append(dict(kind=kind, d=d, n_out=n_out, form=form, conds=conds, comps=comps,
                           fshape=fshape, nt=nt, nb=int(rng.integers(1, 5)), src=src, cartesian=cart,
                           box=int(rng.integers(len(BOXES))), w=float(np.round(rng.uniform(0.3, 3.0), 3)),
-                          int_dim=bool(rng.integers(2)), seed=seed * 100000 + k, cost=1.0))
+                          int_dim=bool(rng.integers(2)), seed=seed * 100000 + k, cost=1.0, x64=bool(k % 7 != 3)))
     return cases
 
 
